@@ -20,7 +20,7 @@ import time
 from concurrent.futures import ThreadPoolExecutor
 
 VERIF = os.path.dirname(os.path.abspath(__file__))
-ROOT = "/tmp/asimap-validate"
+ROOT = "/tmp/asimap-validate.%d" % os.getpid()
 
 
 def sh(cmd, **kw):
